@@ -282,3 +282,34 @@ def run(ctx, rep):
                             if x[0] in ('param', 'upvar'):
                                 fmt_args.add(x[1])
     rep.ob('R07.h', CO + '::new', 'path = dir / consumer id', {'path', 'consumer_id'} <= fmt_args, None, 'format arguments: %s' % sorted(fmt_args))
+
+    # ------------------------------------------------------------ R07.i which partition a group member's offset operation addresses
+    rep.rule('R07.i', 'store/get/delete of a group offset without an explicit partition address the member\'s CURRENT partition (the one last polled); only poll advances the rotation: the advancing resolver mode is passed by System::poll_messages alone', floor=7, analysis='A9 call-argument forms + A3')
+    T = 'server::streaming::topics::topic::Topic'
+    forms.check_call_args(ctx, rep, 'R07.i', {
+        T + '::store_consumer_offset': {'resolve_consumer_with_partition_id': ['consumer, client_id, partition_id, 0']},
+        T + '::get_consumer_offset': {'resolve_consumer_with_partition_id': ['consumer, client_id, partition_id, 0']},
+        T + '::delete_consumer_offset': {'resolve_consumer_with_partition_id': ['consumer, client_id, partition_id, 0']},
+        'server::streaming::systems::system::System::poll_messages': {'resolve_consumer_with_partition_id': ['consumer, session.client_id, partition_id, 1']},
+    })
+    callers = {ctx.user_fn_of(f) for f, c in callers_of(ctx, T + '::resolve_consumer_with_partition_id')}
+    extra = callers - {T + '::store_consumer_offset', T + '::get_consumer_offset', T + '::delete_consumer_offset', 'server::streaming::systems::system::System::poll_messages'}
+    rep.ob('R07.i', T + '::resolve_consumer_with_partition_id', 'callers', not extra, None, '%d callers' % len(callers) if not extra else 'resolver called from unconfirmed places: %s' % sorted(extra))
+    rb = ctx.fn_body(T + '::resolve_consumer_with_partition_id')
+    CGP = 'server::streaming::topics::consumer_group::ConsumerGroup::'
+    for callee, want in ((CGP + 'calculate_partition_id', True), (CGP + 'get_current_partition_id', False)):
+        cs = [c for c in rb.calls if c.name == callee]
+        if not cs:
+            rep.ob('R07.i', T + '::resolve_consumer_with_partition_id', short(callee), False, None, 'the resolver no longer calls %s' % short(callee))
+            continue
+        lits = [(e, tr) for e, tr, _ in bool_literals_at(rb, cs[0].bb) if e in (('param', 'calculate_partition_id'), ('upvar', 'calculate_partition_id'))]
+        ok = bool(lits) and all(tr == want for _, tr in lits)
+        rep.ob('R07.i', T + '::resolve_consumer_with_partition_id', short(callee) + ' under calculate_partition_id == %s' % str(want).lower(), ok, cs[0].where(),
+               None if ok else '%s is not selected by calculate_partition_id == %s' % (short(callee), str(want).lower()))
+    # an explicit partition id wins over both
+    for callee in (CGP + 'calculate_partition_id', CGP + 'get_current_partition_id'):
+        cs = [c for c in rb.calls if c.name == callee]
+        if cs:
+            ok = any(render(e).endswith('partition_id') and (vals == [0] or (vals == [] and lit['else'] and lit['arms'] == [1])) for e, vals, lit in discr_literals_at(rb, cs[0].bb))
+            rep.ob('R07.i', T + '::resolve_consumer_with_partition_id', short(callee) + ' only without an explicit partition', ok, cs[0].where(),
+                   None if ok else 'the member\'s partition is consulted even when the request names a partition')
